@@ -98,7 +98,7 @@ class World:
                     continue
                 seen.add(x)
                 stack.extend(graph[x])
-            self.specs[n].recursive = n in seen
+            self.specs[n].recursive = n in seen or getattr(self.specs[n].fn, '_pyvc_named', False)
 
     def add_prim(self, name, sym_fn, concrete_fn=None):
         self.prims[name] = sym_fn
